@@ -458,6 +458,8 @@ func (v *fnVC) exFor(cur, old *State, extra map[string]*T) *Ex {
 	if v.ct != nil && v.ct.YieldN != "" && cur != nil {
 		x.vars["yielded"] = cur.get(ghostYielded, sI64)
 		x.vars["stopped"] = cur.get(ghostStopped, sBool)
+	} else if cur != nil && v.hasYieldFn() {
+		x.vars["stopped"] = cur.get(ghostStopped, sBool)
 	}
 	for k, t := range extra {
 		x.vars[k] = t
@@ -494,6 +496,10 @@ func (v *fnVC) block(b *ssa.BasicBlock) {
 		st = v.entry.clone()
 		if v.ct != nil && v.ct.YieldN != "" {
 			v.producerInit(st)
+		} else if v.hasYieldFn() {
+			// iterator bodies whose yield callback has an assumed (fnparam) contract: `stopped`
+			// records that the consumer's callback has returned false
+			st.set(ghostStopped, tFalse())
 		}
 	} else {
 		var edges []*T
@@ -838,6 +844,16 @@ func (v *fnVC) havocWrites(in ssa.Instruction, st *State, pre *State) {
 			}
 		}
 	}
+}
+
+// hasYieldFn: the function is an iterator body - it has a parameter or free variable called
+// yield with an assumed (fnparam) contract.
+func (v *fnVC) hasYieldFn() bool {
+	if v.fn == nil {
+		return false
+	}
+	_, ok := v.w.specs.Contracts["fnparam:"+v.fn.RelString(nil)+".yield"]
+	return ok
 }
 
 // visitedHeap names the ghost set of keys a map range has already yielded.
